@@ -258,6 +258,7 @@ def main():
     dist = {"accepted_renderings": 0, "valid": 0, "corrupted": 0, "soup": 0, "multiword": 0, "accepted": 0, "rejected": 0, "crlf": 0, "lines_max": 0, "history_parses": 0,
             "value_kinds": {}, "unprintable": 0, "error_line_checks": 0, "cli_runs": 0}
     seen, nontrivial, evaluations = set(), 0, 0
+    first = Parser()       # the first Parser object of the process: every later result is compared with what this one delivers
     shared = Parser()      # one parser object re-used for the whole history (C11: independence of what was parsed before)
     jobs = []
     valid_texts = []
@@ -275,6 +276,9 @@ def main():
         toks = "()[]=,:\"'#"
         if r < 0.35:
             bad = src[:k] + src[k + 1:]
+        elif r < 0.45:
+            # a whole stray token -- a numeral, a word, a quoted string -- so that the parser's error callback sees every kind of token
+            bad = src[:k] + rnd.choice([" 7 ", " 2.5 ", " -3 ", " x ", ' "s" ', " .5e3 ", " 007 "]) + src[k:]
         elif r < 0.65:
             bad = src[:k] + rnd.choice(toks) + src[k:]
         elif r < 0.85:
@@ -294,6 +298,13 @@ def main():
     for kind, src, exp in jobs:
         use_shared = rnd.random() < 0.5
         o = observe(shared if use_shared else Parser(), src)
+        # what is delivered depends on the text alone: not on which Parser object parses it, nor on what that object parsed before
+        o_first = observe(first, src)
+        if o_first != o:
+            fails.append({"sig": "%s:depends-on-parser-object" % ("C11" if prop == "C11" else "C10"),
+                          "what": "the same text gives %s with one Parser object and %s with the first Parser object created in the process" % (
+                              json.dumps(o, default=str)[:200], json.dumps(o_first, default=str)[:200]),
+                          "replay": {"kind": kind, "source": src, "parser_reused": use_shared}})
         dist["history_parses"] += int(use_shared)
         evaluations += 1
         dist[kind] += 1
@@ -337,7 +348,8 @@ def main():
             sc = surface_case(Parser, src)
             dist["accepted_renderings"] += 1
             if sc is not None:
-                surf_cases.append(sc)
+                flo = float_oracle(src)
+                surf_cases.append("(%s, %s)" % (sc, clist(["(%s, %s)" % (ctext(k), ctext(v)) for k, v in sorted(flo.items())])))
         # Coq case
         try:
             fl = float_oracle(src)
@@ -446,7 +458,7 @@ def main():
         with open(path, "w") as fh:
             fh.write("From Coq Require Import NArith ZArith List.\nFrom MP Require Import Base.Check Model.Lexer Model.Parser Proofs.Surface Corr.CheckSurface.\n"
                      "Import ListNotations.\nOpen Scope N_scope.\n"
-                     "Definition cases : list (list xcmd * list text * text * text) := [\n  %s\n].\n"
+                     "Definition cases : list (list xcmd * list text * text * text * list (text * text)) := [\n  %s\n].\n"
                      "Eval vm_compute in (failing instance_of_layout_theorem cases).\n" % ";\n  ".join(surf_cases[i:i + CH]))
         surf_files.append({"path": path, "first": i, "count": len(surf_cases[i:i + CH])})
     mine = [f for f in fails if f["sig"].startswith(prop + ":")]
